@@ -91,10 +91,15 @@ let c04_gen cast8 toks =
       let start =
         match kind, start_toks with
         | "B", ty :: code :: mid :: ops ->
+            (* byte-level builder (coap_add_token / coap_add_option / coap_add_data transcribed);
+               the abstract builder of C01 runs alongside *)
             let p0 = pdu_init (zi ty) (zi code) (zi mid) (zi mx) in
-            let rets, q = run_ops p0 (build_ops ops) in
-            let rs = String.concat "" (List.map (fun b -> if b then "1" else "0") rets) in
-            Ok ((if rs = "" then "-" else rs), ed_of_pdu q, q)
+            let _, q = run_ops p0 (build_ops ops) in
+            (match ed_b_build (ed_b_init (zi ty) (zi code) (zi mid) (zi mx)) (build_ops ops) with
+             | None -> Error "STUCK"
+             | Some (rets, p) ->
+                 let rs = String.concat "" (List.map (fun b -> if b then "1" else "0") rets) in
+                 Ok ((if rs = "" then "-" else rs), p, q))
         | "W", parts ->
             let bs = List.concat (List.map bytes_of_tok parts) in
             (match ed_b_start_wire pr bs (zi mx), ed_start_wire pr bs (zi mx) with
